@@ -97,8 +97,9 @@ class C13(Base):
                    "concatenations decode token by token, borrowed iff no backslash, writer form = string form. Tie: "
                    "unescape_unicode_to_string and unescape_unicode(writer) run in-process on the same inputs as the "
                    "Lean model; both observations diffed. An independent python reference decoder judges the "
-                   "implementation; format_pattern of `{ \"lit\" }` and of `{ ID(\"lit\") }` must give the same text "
-                   "whenever the parser admits the literal.")
+                   "implementation; format_pattern of the literal as a placeable, as a positional and as a NAMED argument of "
+                   "a function, as a named argument of a parameterized term, and as a selector (whose default arm prints it) "
+                   "must give the same text whenever the parser admits the literal.")
     ASSUMPTIONS = ["u32::from_str_radix(_,16) on 4/6 hex digits = positional value", "char::from_u32 = Some iff scalar value",
                    "String::push / push_str append UTF-8", "str::get / is_char_boundary as documented in std"]
 
@@ -227,12 +228,16 @@ class C13(Base):
             return "input without a backslash changed"
         if unhx(wp[1]) != b"[" + out:
             return "writer form %s != '[' + string form %s" % (wp[1], sp[1])
-        for k in ("f", "r"):
+        for k in ("f", "r", "k", "t", "q"):
             v = d.get(k, "na")
             if v.startswith("na"):
                 continue
             if v == "panic" or v.startswith("err"):
                 return "formatting the admitted literal failed: %s:%s" % (k, v)
+            if k == "q" and out == b"a":
+                if unhx(v) != b"A":
+                    return "a literal decoding to `a` used as selector did not select [a]: %s" % v
+                continue
             if unhx(v) != out:
                 return "format_pattern path %s gave %s, direct call gave %s" % (k, v, sp[1])
         return None
